@@ -106,3 +106,8 @@ claim("C19",
       "exhaustive depth-bounded enumeration of length/DAC/trigger/power/time event sequences per channel on the real APU, NR52 compared with a reference length/status model after every machine cycle",
       "For each of the four channels every sequence of up to 4 (thorough 6) events over {4 length loads, DAC on/off, NRx4 in {00,40,80,C0}, NR10 in {00,11} with frequency 7FF for channel 1, NR52 off/on, 1 cycle, to one cycle before the next 512 Hz step, 2 cycles, 2,048 cycles} (at most 3 writes between time advances) is executed after a power cycle; NR52 is compared with the reference (status on only by trigger with DAC on and no sweep overflow; off by DAC off, power off, sweep overflow, length expiry; extra length clock when enabling or triggering in the first half of a frame-sequencer period) after every event and every machine cycle. Complete expiry runs cover (channel, length data, first/second half, enable at/after trigger, skew) and re-triggers with the counter at 0.",
       "Frame-sequencer step times are taken from the implementation (phase convention) and checked to be exactly 2,048 cycles apart. Don't-cares are listed in the evidence assumptions.")
+
+claim("C21",
+      "exhaustive enumeration of channel frequencies / NR43 values on the real APU with per-cycle waveform-position observation against the documented step periods and LFSR sequence",
+      "For channels 1, 2 and 3 and every enumerated 11-bit frequency (quick: all f with at most two bits set or clear plus the neighbourhood of 0x400; thorough: all 2,048), the duty/wave position is read after every machine cycle over 24 steps and the cumulative step count must equal floor((4N+phi)/P) for one phase and P = 4(2048-f) (2(2048-f) for channel 3) clock cycles; for channel 4 every NR43 value with shift <= 13 must step the LFSR every d(r)*2^s clock cycles over 6 steps; at the fastest clock the output bit over three periods must have minimal period 32,767 (15-bit) and 127 (7-bit) and be a rotation of the documented x^15+x^14+1 sequence.",
+      "Positions are read through the audio hook (VGet); the delay of the first step after a trigger is treated as a phase convention (at most one extra period).")
